@@ -72,6 +72,35 @@ def _strip_float(e):
     return e
 
 
+def _is_pure_predicate(ctx, cls, mname):
+    """A method of the class that contains no store rooted at self, calls no other method of self with arguments, and whose every
+    return is a truth value (constant, comparison, not/and/or, bool(...))."""
+    try:
+        g = get_method(ctx, cls, mname)
+    except AnalysisError:
+        return False
+    sn = g.self_name
+    def rooted(e):
+        while isinstance(e, (ast.Attribute, ast.Subscript)):
+            e = e.value
+        return isinstance(e, ast.Name) and e.id == sn
+    for n in walk_shallow(g.node):
+        if isinstance(n, (ast.Assign, ast.AugAssign, ast.AnnAssign)):
+            tg = n.targets if isinstance(n, ast.Assign) else [n.target]
+            if any(isinstance(t, (ast.Attribute, ast.Subscript)) and rooted(t) for t in tg):
+                return False
+        if isinstance(n, ast.Call) and isinstance(n.func, ast.Attribute) and rooted(n.func) and isinstance(n.func.value, ast.Name) and (n.args or n.keywords):
+            return False
+        if isinstance(n, (ast.Global, ast.Nonlocal, ast.Yield, ast.YieldFrom)):
+            return False
+        if isinstance(n, ast.Return):
+            v = n.value
+            if not (isinstance(v, (ast.Constant, ast.Compare, ast.BoolOp)) or (isinstance(v, ast.UnaryOp) and isinstance(v.op, ast.Not))
+                    or (isinstance(v, ast.Call) and isinstance(v.func, ast.Name) and v.func.id == "bool")):
+                return False
+    return True
+
+
 # ------------------------------------------------------------------------------------------------
 def r1_records_are_copies(ctx, rid):
     cls = _cls(ctx)
@@ -105,6 +134,11 @@ def r1_records_are_copies(ctx, rid):
             if isinstance(st, ast.Assign) and len(st.targets) == 1 and isinstance(st.targets[0], ast.Name) \
                     and st.targets[0].id in carriers and _strip_float(st.value) is n:
                 ctx.ok(rid, f, st, f"`{n.id}` is re-bound to a local alias (no escape)", nontrivial=False)
+                continue
+            # (d) handed to a predicate method of the class that stores nothing and returns a truth value
+            if isinstance(par, ast.Call) and n in par.args and isinstance(par.func, ast.Attribute) and isinstance(par.func.value, ast.Name) \
+                    and par.func.value.id == selfn and _is_pure_predicate(ctx, cls, par.func.attr):
+                ctx.ok(rid, f, st, f"`{n.id}` is handed to the predicate `{par.func.attr}` (stores nothing on the object, returns a truth value)")
                 continue
             ctx.violation(rid, f, st, f"the caller's array `{p}` escapes by reference: used outside an element store into "
                                      f"self._y (a later mutation by the caller would alter the stored record)")
@@ -184,6 +218,9 @@ class _Exec:
             if isinstance(t, ast.Subscript) and _is_self_attr(self._alias(t.value), selfn, "_y"):
                 self.events.append(("y", st, sp.simplify(self.sym(t.slice) - N0)))
                 return
+            if isinstance(t, ast.Subscript) and _is_self_attr(self._alias(t.value), selfn, "_t"):
+                self.events.append(("t!", st, t.slice))       # a recorded time stamp is rewritten in place
+                return
         if isinstance(st, ast.AugAssign) and _is_self_attr(st.target, selfn, "_n"):
             d = self.sym(st.value)
             d = d if isinstance(st.op, ast.Add) else (-d if isinstance(st.op, ast.Sub) else sp.Symbol("opaque_aug"))
@@ -238,6 +275,150 @@ def _same_stamp_test(ctx, f, test):
     return None
 
 
+def _predicate_conjuncts(ctx, g):
+    """The conditions that hold whenever the predicate method g returns a true value, for the shape
+    `[alias = ...]* [if C: return False]* return X`; None for any other shape."""
+    out = []
+    body = [s for s in g.node.body if not (isinstance(s, ast.Expr) and isinstance(s.value, ast.Constant))]
+
+    def pos(e, neg):
+        while isinstance(e, ast.UnaryOp) and isinstance(e.op, ast.Not):
+            e, neg = e.operand, not neg
+        if isinstance(e, ast.Call) and isinstance(e.func, ast.Name) and e.func.id == "bool" and len(e.args) == 1:
+            return pos(e.args[0], neg)
+        if isinstance(e, ast.BoolOp) and ((isinstance(e.op, ast.Or) and neg) or (isinstance(e.op, ast.And) and not neg)):
+            for v in e.values:
+                pos(v, neg)
+            return
+        out.append((e, neg))
+    for s in body[:-1]:
+        if isinstance(s, ast.Assign) and len(s.targets) == 1 and isinstance(s.targets[0], ast.Name):
+            continue
+        if isinstance(s, ast.If) and not s.orelse and len(s.body) == 1 and isinstance(s.body[0], ast.Return) \
+                and isinstance(s.body[0].value, ast.Constant) and s.body[0].value.value is False:
+            pos(s.test, True)
+            continue
+        return None
+    if not body or not isinstance(body[-1], ast.Return) or body[-1].value is None:
+        return None
+    pos(body[-1].value, False)
+    return out
+
+
+def _stamp_move(ctx, rid, f, cfg, p, ex):
+    """A normal path of update() that rewrites a recorded time stamp.  The interpolant through the records is unchanged by moving the
+    LAST record's stamp forward to t only if that record ends a flat segment which the new state prolongs: rows n-2 and n-1 are equal,
+    the new state equals row n-1, both by exact comparison of all components, and t lies after the last stamp.  Everything else a
+    stamp rewrite can do loses the record (t_i, y_i)."""
+    selfn = f.self_name
+    label = "a recorded time stamp is moved only along a flat segment"
+    kinds = [k for k, _, _ in ex.events]
+    st, idx = next((s_, d) for k, s_, d in ex.events if k == "t!")
+    facts = {"path": cfg.path_str(p), "events": kinds}
+    if kinds != ["t!"]:
+        ctx.violation(rid, f, st, f"a path of update() rewrites a recorded time stamp (`{norm(st)[:60]}`) and also changes rows / counter / times "
+                                  f"(events: {kinds}): times, rows and counter no longer describe the same records", facts, label=label)
+        return
+    i_ = ex.sym(idx)
+    if not (sp.simplify(i_ + 1) == 0 or sp.simplify(i_ - N0 + 1) == 0):
+        ctx.violation(rid, f, st, f"`{norm(st)[:60]}` rewrites the stamp of a record other than the last one: queries between the records around it "
+                                  f"are interpolated over the wrong interval", facts, label=label)
+        return
+    tpar = [q for q in f.params if q != selfn]
+    if _strip_float(st.value) is None or not (isinstance(_strip_float(st.value), ast.Name) and _strip_float(st.value).id == tpar[0]):
+        ctx.violation(rid, f, st, f"`{norm(st)[:60]}` sets the last stamp to something other than the update's time", facts, label=label)
+        return
+    # the guards on the path: calls of predicate methods taken on their true edge
+    conj = []
+    for k, x in enumerate(p[:-1]):
+        if not isinstance(x, ast.If):
+            continue
+        taken = "true" in cfg.g[x][p[k + 1]]["labels"]
+        parts = x.test.values if isinstance(x.test, ast.BoolOp) and isinstance(x.test.op, ast.And) else [x.test]
+        if not taken:
+            continue
+        for e in parts:
+            if isinstance(e, ast.Call) and isinstance(e.func, ast.Attribute) and isinstance(e.func.value, ast.Name) and e.func.value.id == selfn:
+                try:
+                    g = get_method(ctx, _cls(ctx), e.func.attr)
+                except AnalysisError:
+                    continue
+                if not _is_pure_predicate(ctx, _cls(ctx), e.func.attr):
+                    continue
+                cj = _predicate_conjuncts(ctx, g)
+                if cj is None:
+                    raise AnalysisError(f"{rid}: the predicate {e.func.attr} that licenses a stamp move has a shape the rule cannot read")
+                # map the callee's parameters to the call's arguments (positional)
+                gp = [q for q in g.params if q != g.self_name]
+                amap = {q: a for q, a in zip(gp, e.args)}
+                conj.append((g, cj, amap))
+    if not conj:
+        ctx.violation(rid, f, st, f"`{norm(st)[:60]}` moves the last record's stamp on a path that appends nothing, and no predicate on the path "
+                                  f"establishes that the record only prolongs a flat segment: the record (t_n-1, y_n-1) is lost", facts, label=label)
+        return
+
+    def row_of(g, e):
+        """'new' for the update's state, sympy index relative to n for self._y[...] rows, None otherwise."""
+        v = normalise(ctx, g, e)
+        while isinstance(v, ast.Call) and isinstance(v.func, ast.Attribute) and v.func.attr in ("astype", "asarray", "ravel", "reshape") :
+            v = v.func.value if v.func.attr != "asarray" else (v.args[0] if v.args else v)
+            v = normalise(ctx, g, v)
+        if isinstance(v, ast.Name):
+            return ("new", v.id)
+        if isinstance(v, ast.Subscript) and is_attr_of(normalise(ctx, g, v.value), g.self_name, "_y"):
+            def leaf(n):
+                if is_attr_of(n, g.self_name, "_n"):
+                    return N0
+                return None
+            try:
+                return ("row", sp.simplify(symx.to_sympy(normalise(ctx, g, v.slice), leaf=leaf) - N0))
+            except symx.Unsupported:
+                return None
+        return None
+    have_flat = have_new = have_later = False
+    for g, cj, amap in conj:
+        for e, neg in cj:
+            if neg:
+                if isinstance(e, ast.Compare) and len(e.ops) == 1 and isinstance(e.ops[0], (ast.LtE, ast.Lt)) and isinstance(e.ops[0], ast.LtE):
+                    have_later = have_later or _is_last_stamp(ctx, g, e.comparators[0])
+                continue
+            if isinstance(e, ast.Compare) and len(e.ops) == 1 and isinstance(e.ops[0], ast.Gt) and _is_last_stamp(ctx, g, e.comparators[0]):
+                have_later = True
+                continue
+            inner = None
+            if isinstance(e, ast.Call) and call_name(e) in ("all",) and len(e.args) == 1 and isinstance(e.args[0], ast.Compare) \
+                    and len(e.args[0].ops) == 1 and isinstance(e.args[0].ops[0], ast.Eq):
+                inner = (e.args[0].left, e.args[0].comparators[0])
+            elif isinstance(e, ast.Call) and call_name(e) == "array_equal" and len(e.args) == 2:
+                inner = (e.args[0], e.args[1])
+            if inner is None:
+                continue
+            a, b = row_of(g, inner[0]), row_of(g, inner[1])
+            ks = {a, b}
+            if ("row", sp.Integer(-1)) in ks and ("row", sp.Integer(-2)) in ks:
+                have_flat = True
+            if ("row", sp.Integer(-1)) in ks and any(k_ and k_[0] == "new" and k_[1] in amap for k_ in ks):
+                have_new = True
+    if have_flat and have_new and have_later:
+        ctx.ok(rid, f, st, "the last stamp is moved to the update's time only where rows n-2 and n-1 are equal, the new state equals row n-1 "
+                           "(exact, all components) and the time lies after the last stamp: the interpolant is unchanged", facts, label=label)
+    else:
+        missing = [w for w, h in (("rows n-2 and n-1 are equal (the history ends with a flat segment)", have_flat),
+                                  ("the new state equals row n-1", have_new), ("the new time lies after the last stamp", have_later)) if not h]
+        ctx.violation(rid, f, st, f"`{norm(st)[:60]}` moves the last record's stamp forward, but the licensing predicate does not establish that "
+                                  f"{' / '.join(missing)} by exact comparison of all components: where the last record ends a ramp its stamp is "
+                                  f"stretched, hist(t_n-1) no longer returns y_n-1 and the segment before it is interpolated along the wrong line",
+                      facts, label=label)
+
+
+def _is_last_stamp(ctx, g, e):
+    v = normalise(ctx, g, e)
+    if not (isinstance(v, ast.Subscript) and is_attr_of(normalise(ctx, g, v.value), g.self_name, "_t")):
+        return False
+    s_ = v.slice
+    return isinstance(s_, ast.UnaryOp) and isinstance(s_.op, ast.USub) and isinstance(s_.operand, ast.Constant) and s_.operand.value == 1
+
+
 def r2_state_advances_together(ctx, rid):
     f = get_method(ctx, _cls(ctx), "update")
     cfg = ctx.cfg(f)
@@ -265,6 +446,9 @@ def r2_state_advances_together(ctx, rid):
             if isinstance(s, ast.stmt):
                 ex.step(s)
         kinds = [k for k, _, _ in ex.events]
+        if "t!" in kinds:
+            _stamp_move(ctx, rid, f, cfg, p, ex)
+            continue
         label = "path " + cfg.path_str(p)
         facts = {"path": cfg.path_str(p), "events": [(k, str(d)) for k, _, d in ex.events], "counter_after": str(sp.simplify(ex.cur))}
         stores = [(s, d) for k, s, d in ex.events if k == "y"]
